@@ -174,6 +174,25 @@ def check_seq(content, kw, acc, fam):
         # is exactly the requested one (C05)
         if fam in FAM_MODE and kw.get('mode') in (None, 'hanzi') and kw.get('encoding') is None and rep.segments and any(sg.mode != FAM_MODE[fam] for sg in rep.segments):
             viol.append(('mode', 'symbol %d uses mode(s) %r for a %s message' % (i, sorted({sg.mode for sg in rep.segments}), FAM_MODE[fam]), None))
+        elif fam not in FAM_MODE and kw.get('mode') is None and exp is not None and rep.segments:
+            # the mode is the most compact one applicable to the WHOLE message (C07), in every symbol
+            allowed = Mo.auto_modes(exp)
+            if any(sg.mode not in allowed for sg in rep.segments):
+                viol.append(('mode', 'symbol %d uses mode(s) %r, the message as a whole is %s' % (i, sorted({sg.mode for sg in rep.segments}), sorted(allowed)), None))
+        # boosting: a symbol whose data fits is raised to the highest level of its version that still holds its own data
+        if kw.get('boost_error', True) and rep.segments and len(rep.segments) == 1 and not bad and n > 1 and not T.is_micro(rep.version):
+            sg = rep.segments[0]
+            need = 20 + 4 + (4 if sg.mode == 'hanzi' else 0) + T.cci_bits(sg.mode, rep.version) + T.payload_bits(sg.mode, sg.count)
+            want = kw.get('error') or 'L'
+            if need <= T.data_bits(rep.version, want):
+                for cand in ('M', 'Q', 'H')[('L', 'M', 'Q', 'H').index(want):]:
+                    if need <= T.data_bits(rep.version, cand):
+                        want = cand
+                    else:
+                        break
+                if qr.error != want:
+                    viol.append(('level-boost', 'symbol %d of %d holds %d bits: level %r, the highest level of version %r that holds them is %r'
+                                 % (i, n, need, qr.error, rep.version, want), None))
         if kw.get('boost_error', True) is False and qr.error != (kw.get('error') or 'L'):
             viol.append(('level', 'symbol %d has level %r although %r was requested with boost_error=False' % (i, qr.error, kw.get('error') or 'L'), None))
         if qr.error is None or ('L', 'M', 'Q', 'H').index(qr.error) < ('L', 'M', 'Q', 'H').index(kw.get('error') or 'L'):
